@@ -4,14 +4,14 @@ go 1.26.0
 
 require (
 	github.com/anishathalye/porcupine v1.3.0
+	github.com/bits-and-blooms/bloom/v3 v3.7.0
 	github.com/danthegoodman1/bloomsearch v0.0.0
+	github.com/klauspost/compress v1.18.0
 	golang.org/x/tools v0.29.0
 )
 
 require (
 	github.com/bits-and-blooms/bitset v1.10.0 // indirect
-	github.com/bits-and-blooms/bloom/v3 v3.7.0 // indirect
-	github.com/klauspost/compress v1.18.0 // indirect
 	github.com/tidwall/gjson v1.18.0 // indirect
 	github.com/tidwall/match v1.1.1 // indirect
 	github.com/tidwall/pretty v1.2.0 // indirect
